@@ -319,16 +319,16 @@ def run_case(case):
                 bad("min-dist-nan-iff-undefined", f"{pa} {pb} -> nan", hist)
                 continue
             want = np.linalg.norm(min_image(pa - pb, box))
-            if abs(d - want) > 1e-9:
+            if not abs(d - want) <= 1e-9:
                 bad("min-dist-is-minimum-image", f"{pa} {pb}: {d} expected {want}", hist)
-            if abs(d - eng.pbc_min_dist(pb, pa)) > 1e-12:
+            if not abs(d - eng.pbc_min_dist(pb, pa)) <= 1e-12:
                 bad("min-dist-symmetric", f"{pa} {pb}", hist)
             if d > np.linalg.norm(pa - pb) + 1e-12:
                 bad("min-dist-le-direct", f"{pa} {pb}", hist)
             for ax in range(3):
                 sh = np.zeros(3)
                 sh[ax] = box[ax]
-                if abs(eng.pbc_min_dist(pa + sh, pb) - d) > 1e-9:
+                if not abs(eng.pbc_min_dist(pa + sh, pb) - d) <= 1e-9:
                     bad("min-dist-periodic", f"{pa}+{sh} {pb}", hist)
 
     # ---- replay of one history
